@@ -1,6 +1,6 @@
 (** extraction of the C09 model (sign tables regenerated from the source + specs) *)
 Require Import FastZ.
-From Dashu Require Import Base.Prelude Int.BitsSpec.
+From Dashu Require Import Base.Prelude Base.Words Int.BitsSpec Int.BitsWords.
 From DashuGen Require Import SignTables.
 Extraction "model.ml"
   signed sign_of
@@ -8,4 +8,5 @@ Extraction "model.ml"
   ibig_not_gen ibig_not_ref_gen ibig_shr_gen ibig_shr_ref_gen
   bit_len_spec set_bit_spec clear_bit_spec trailing_zeros_spec trailing_ones_spec
   count_ones_spec count_zeros_spec split_bits_spec clear_high_bits_spec
-  is_power_of_two_spec next_power_of_two_spec ones_spec.
+  is_power_of_two_spec next_power_of_two_spec ones_spec
+  to_words trailing_zeros_large trailing_ones_large bit_large.
